@@ -33,6 +33,9 @@ type c08Resume struct {
 	GapMs int `json:"gap_ms"` // pause before resuming
 	CutMs int `json:"cut_ms"` // cut this exchange after so many ms (-1: read to the end)
 	Back  int `json:"back"`   // 0: resume from the last id received; n>0: from the id n events earlier (replay)
+	// HalfOpenMs: the exchange that this resume follows stays attached, from the server's point of view, for this
+	// long after the client abandoned it (0: the server notices at once). Resumes answered 409 are repeated.
+	HalfOpenMs int `json:"half_open_ms,omitempty"`
 }
 
 type c08Spec struct {
@@ -64,6 +67,13 @@ func genC08(r *vh.Rand) c08Spec {
 		}
 		s.Resumes = append(s.Resumes, rs)
 	}
+	if r.Chance(1, 5) {
+		for i := range s.Resumes {
+			if r.Bool() {
+				s.Resumes[i].HalfOpenMs = r.Range(1, 30)
+			}
+		}
+	}
 	if r.Chance(1, 6) {
 		s.Pad = 900
 		s.MaxBytes = r.Range(2, 5) * 1000
@@ -85,6 +95,7 @@ type recStore struct {
 	inner  mcp.EventStore
 	mu     sync.Mutex
 	log    map[string][][]byte
+	at     map[string][]time.Time // virtual instant of every append
 	opened []string
 }
 
@@ -111,6 +122,10 @@ func (s *recStore) Append(ctx context.Context, sid, stream string, data []byte) 
 	if err == nil {
 		s.mu.Lock()
 		s.log[sid+"/"+stream] = append(s.log[sid+"/"+stream], append([]byte(nil), data...))
+		if s.at == nil {
+			s.at = map[string][]time.Time{}
+		}
+		s.at[sid+"/"+stream] = append(s.at[sid+"/"+stream], time.Now())
 		s.mu.Unlock()
 	}
 	return err
@@ -152,7 +167,15 @@ func (s *recStore) truth(sid, stream string) [][]byte {
 	return append([][]byte(nil), s.log[sid+"/"+stream]...)
 }
 
+func (s *recStore) times(sid, stream string) []time.Time {
+	s.mu.Lock()
+	defer s.mu.Unlock()
+	return append([]time.Time(nil), s.at[sid+"/"+stream]...)
+}
+
 type c08Exchange struct {
+	Attached time.Time `json:"-"` // when the 200 arrived
+	Ended    time.Time `json:"-"` // when the client stopped reading (cut or end of body)
 	Kind   string        `json:"kind"`
 	LEID   string        `json:"last_event_id,omitempty"`
 	Status int           `json:"status"`
@@ -239,6 +262,7 @@ func runC08(c *vh.Case, spec c08Spec) {
 	}
 	h := mcp.NewStreamableHTTPHandler(func(*http.Request) *mcp.Server { return server }, &mcp.StreamableHTTPOptions{EventStore: store, JSONResponse: spec.JSON})
 	ip := &vhm.InProc{Handler: h}
+	t0v := time.Now()
 	hdr := map[string]string{"Content-Type": "application/json", "Accept": "application/json, text/event-stream"}
 	initMsg := fmt.Sprintf(`{"jsonrpc":"2.0","id":"init","method":"initialize","params":{"protocolVersion":%q,"capabilities":{},"clientInfo":{"name":"raw","version":"0"}}}`, spec.Version)
 	sid := ""
@@ -329,6 +353,7 @@ func runC08(c *vh.Case, spec c08Spec) {
 			return ex
 		}
 		ex.Status = resp.StatusCode
+		ex.Attached = time.Now()
 		ex.SID = resp.Header.Get("Mcp-Session-Id")
 		if resp.StatusCode != 200 {
 			resp.Body.Close()
@@ -337,6 +362,7 @@ func runC08(c *vh.Case, spec c08Spec) {
 		}
 		rerr := vhm.ReadSSE(resp.Body, func(e vhm.SSEvent) { ex.Events = append(ex.Events, e) })
 		ex.EOF = rerr == nil && ectx.Err() == nil
+		ex.Ended = time.Now()
 		resp.Body.Close()
 		log.Add("exchange", "kind", method, "leid", leid, "events", len(ex.Events), "eof", ex.EOF, "status", ex.Status)
 		return ex
@@ -344,12 +370,26 @@ func runC08(c *vh.Case, spec c08Spec) {
 
 	// The server grants replay rights exclusively; right after a cut (or after an error status was
 	// read) the previous server-side handler may not have let go yet: 409 means "try again".
+	// half-open connections: how long the server keeps the exchange that is started next after its client left
+	lingerNext, lingerNow := 0, 0
+	var lingerUntil time.Time
+	_ = lingerNow
+	ip.Linger = func(*http.Request) time.Duration { return ms(lingerNext) }
+	if len(spec.Resumes) > 0 {
+		lingerNext = spec.Resumes[0].HalfOpenMs
+	}
 	exchange1 := exchange
 	exchange = func(method, leid, body string, cutMs int) c08Exchange {
+		lg := lingerNext
 		ex := exchange1(method, leid, body, cutMs)
-		for i := 0; i < 3 && ex.Status == http.StatusConflict; i++ {
+		for i := 0; ex.Status == http.StatusConflict && (i < 3 || time.Now().Before(lingerUntil.Add(ms(2)))); i++ {
 			time.Sleep(ms(1))
 			ex = exchange1(method, leid, body, cutMs)
+		}
+		if lg > 0 && ex.Status == 200 {
+			if u := time.Now().Add(ms(lg)); u.After(lingerUntil) {
+				lingerUntil = u // the server keeps this exchange until then
+			}
 		}
 		return ex
 	}
@@ -412,7 +452,14 @@ func runC08(c *vh.Case, spec c08Spec) {
 	note(exs[0])
 	followed := true // the client has so far always resumed from the last id it received
 	replayed, detachedWrites := 0, 0
-	for _, rs := range spec.Resumes {
+	for ri, rs := range spec.Resumes {
+		lingerNow, lingerNext = rs.HalfOpenMs, 0
+		if ri+1 < len(spec.Resumes) {
+			lingerNext = spec.Resumes[ri+1].HalfOpenMs
+		}
+		if rs.HalfOpenMs > 0 {
+			c.Count("resumes_while_previous_exchange_half_open", 1)
+		}
 		time.Sleep(ms(rs.GapMs))
 		if len(seenIDs) == 0 {
 			if spec.Stream == "standalone" {
@@ -445,6 +492,7 @@ func runC08(c *vh.Case, spec c08Spec) {
 		exs = append(exs, ex)
 		note(ex)
 	}
+	lingerNow, lingerNext = 0, 0
 	time.Sleep(ms(totalMs + 40))
 	<-bgDone
 	// final: follow to the end, then replay from every id ever received
@@ -572,9 +620,27 @@ func runC08(c *vh.Case, spec c08Spec) {
 		}
 		return true
 	}
+	appendAt := store.times(sid, streamID)
 	for k, ex := range exs {
 		if !check(ex, fmt.Sprintf("exchange %d", k)) {
 			return
+		}
+		// an exchange that was attached (answered 200) receives what is written to its stream while it is attached:
+		// every message stored strictly before the client stopped reading, and after the attach, must be there
+		if ex.Status == 200 && !ex.Attached.IsZero() && !(k == 0 && spec.Stream == "initialize") {
+			hi := -1
+			for _, e := range ex.Events {
+				if _, i, ok := parseEID(e.ID); ok && i > hi {
+					hi = i
+				}
+			}
+			for i, at := range appendAt {
+				if i > hi && len(truth[i]) > 0 && at.After(ex.Attached) && at.Before(ex.Ended) {
+					c.Violate("attached-stream-starved", "exchange %d (%s, Last-Event-ID %q) was attached from %v to %v and received events up to index %d, but message %d was written to its stream at %v and never arrived on it",
+						k, ex.Kind, ex.LEID, ex.Attached.Sub(t0v), ex.Ended.Sub(t0v), hi, i, at.Sub(t0v))
+					return
+				}
+			}
 		}
 		if k > 0 && ex.LEID != "" && len(ex.Events) > 0 {
 			replayed++
